@@ -331,6 +331,10 @@ func c15Scenarios(tier string) []*Scenario {
 		add(&c15Case{name: "plain-err", stack: nil, script: []Out{{Err: E1}}, entry: e, readers: readerSets[(i+1)%3], cancelAt: -1})
 		add(&c15Case{name: "retry", stack: []Spec{retry}, script: failing, entry: e, readers: readerSets[(i+2)%3], cancelAt: -1})
 	}
+	// an outcome that carries a result and an error at once, read through every getter
+	for i, st := range [][]Spec{nil, {{Kind: KRetry, MaxRetries: 1, ReturnLast: true}}, {{Kind: KBreaker, FT: 5, FC: 5, BDelay: 1000}}} {
+		add(&c15Case{name: "result-and-error", stack: st, script: []Out{{V: 7, Err: E1, Dur: 5}}, entry: entries[i%2], readers: readerSets[1], cancelAt: -1})
+	}
 	add(&c15Case{name: "retry-exceeded", stack: []Spec{retry}, script: []Out{{Err: E1}}, entry: "Get", readers: readerSets[1], cancelAt: -1})
 	add(&c15Case{name: "hedge", stack: []Spec{hedge}, script: []Out{coop(50, nil, 1), coop(5, nil, 1)}, entry: "GetWithExecution", readers: readerSets[1], cancelAt: -1})
 	add(&c15Case{name: "timeout", stack: []Spec{{Kind: KTimeout, Limit: 20}}, script: []Out{{V: 1, Block: true}}, entry: "GetWithExecution", readers: readerSets[0], cancelAt: -1})
